@@ -8,6 +8,7 @@ import (
 	"fmt"
 	"go/types"
 	"math/big"
+	"os"
 	"sort"
 	"strings"
 	"sync"
@@ -44,6 +45,7 @@ type Engine struct {
 	verifrtPath      string
 	modulePath       string
 	loadSeconds      float64
+	buildSeconds     float64
 }
 
 type Decision struct {
@@ -97,10 +99,13 @@ type RunStats struct {
 	Aborted      map[string]int
 	Samples      []string
 	Summaries    int
+	Cached       int
+	FinalCached  int
+	ForkSites    map[string]int // decision sites that produced alternatives (new forks)
 }
 
 func newStats() *RunStats {
-	return &RunStats{Reaches: map[string]int{}, AssertsSeen: map[string]int{}, Aborted: map[string]int{}}
+	return &RunStats{Reaches: map[string]int{}, AssertsSeen: map[string]int{}, Aborted: map[string]int{}, ForkSites: map[string]int{}}
 }
 
 func (s *RunStats) merge(o *RunStats) {
@@ -116,6 +121,8 @@ func (s *RunStats) merge(o *RunStats) {
 	s.SolverDur += o.SolverDur
 	s.Schedules += o.Schedules
 	s.Summaries += o.Summaries
+	s.Cached += o.Cached
+	s.FinalCached += o.FinalCached
 	if o.MaxDecisions > s.MaxDecisions {
 		s.MaxDecisions = o.MaxDecisions
 	}
@@ -127,6 +134,9 @@ func (s *RunStats) merge(o *RunStats) {
 	}
 	for k, v := range o.Aborted {
 		s.Aborted[k] += v
+	}
+	for k, v := range o.ForkSites {
+		s.ForkSites[k] += v
 	}
 	if len(s.Samples) < 6 {
 		s.Samples = append(s.Samples, o.Samples...)
@@ -180,6 +190,10 @@ type Run struct {
 	ctxs           []*subCtx
 	localDepth     int
 	noSummaries    bool
+	pcHash         [16]byte
+	pcHashStack    [][16]byte
+	scopeOpen      bool
+	qcache         *sync.Map
 }
 
 type ufApp struct {
@@ -218,6 +232,8 @@ func (r *Run) assertTerm(t *Term) {
 	if t.isTrue() {
 		return
 	}
+	th := hashTerm(t)
+	r.pcHash = hashBytes(r.pcHash[:], th[:])
 	name := r.printer.ref(t)
 	r.flushDefs()
 	r.sol.Send("(assert " + name + ")")
@@ -226,9 +242,30 @@ func (r *Run) assertTerm(t *Term) {
 
 // satWith checks pc ∧ t.
 func (r *Run) satWith(t *Term, final bool) string {
+	r.scopeOpen = false
 	if t.isFalse() {
 		return "unsat"
 	}
+	th := hashTerm(t)
+	key := hashBytes(r.pcHash[:], th[:])
+	if r.qcache != nil {
+		if c, ok := r.qcache.Load(key); ok && (!final || c.(string) == "unsat") {
+			r.stats.Cached++
+			if final {
+				r.stats.FinalCached++
+			}
+			return c.(string)
+		}
+	}
+	defer func() { r.scopeOpen = true }()
+	res := r.satWithSolver(t, final)
+	if r.qcache != nil && res != "unknown" {
+		r.qcache.Store(key, res)
+	}
+	return res
+}
+
+func (r *Run) satWithSolver(t *Term, final bool) string {
 	name := r.printer.ref(t)
 	r.flushDefs()
 	r.sol.Send("(push)")
@@ -247,9 +284,19 @@ func (r *Run) satWith(t *Term, final bool) string {
 	return res
 }
 
-func (r *Run) popScope() { r.sol.Send("(pop)") }
+func (r *Run) popScope() {
+	if r.scopeOpen {
+		r.sol.Send("(pop)")
+		r.scopeOpen = false
+	}
+}
 
 func (r *Run) declareVar(t *Term) {
+	if t.sort == SBool {
+		r.pcHash = hashBytes(r.pcHash[:], []byte("declb"), []byte(t.name))
+	} else {
+		r.pcHash = hashBytes(r.pcHash[:], []byte("decli"), []byte(t.name), []byte(t.lo.String()), []byte(t.hi.String()))
+	}
 	if t.sort == SBool {
 		r.sol.Send(fmt.Sprintf("(declare-const %s Bool)", smtName(t.name)))
 		return
@@ -320,6 +367,9 @@ func (r *Run) decide(kind string, n int, cond func(i int) *Term, pos string) int
 		base := make([]int, 0, k+1)
 		for _, d := range *logp {
 			base = append(base, d.Taken)
+		}
+		if len(feasible) > 1 && ctx == nil {
+			r.stats.ForkSites[kind+" @ "+pos] += len(feasible) - 1
 		}
 		for _, alt := range feasible[1:] {
 			p := append(append([]int{}, base...), alt)
@@ -641,12 +691,33 @@ func (e *Engine) exploreHarness(fn *ssa.Function, workers int) *HarnessResult {
 	q.cond = sync.NewCond(&q.mu)
 	q.push([][]int{{}})
 	violated := map[string]bool{}
+	qcache := &sync.Map{}
 	var vmu sync.Mutex
 	var rmu sync.Mutex
 	var wg sync.WaitGroup
 	if workers < 1 {
 		workers = 1
 	}
+	stopProgress := make(chan struct{})
+	if e.opts.Verbose {
+		go func() {
+			tk := time.NewTicker(20 * time.Second)
+			defer tk.Stop()
+			for {
+				select {
+				case <-stopProgress:
+					return
+				case <-tk.C:
+					rmu.Lock()
+					q.mu.Lock()
+					fmt.Fprintf(os.Stderr, "  .. %s: %.0fs paths=%d queued=%d feas=%d final=%d decisions<=%d\n", fn.Name(), time.Since(t0).Seconds(), res.Stats.Paths, len(q.items), res.Stats.Feasibility, res.Stats.Final, res.Stats.MaxDecisions)
+					q.mu.Unlock()
+					rmu.Unlock()
+				}
+			}
+		}()
+	}
+	defer close(stopProgress)
 	for w := 0; w < workers; w++ {
 		wg.Add(1)
 		go func() {
@@ -665,6 +736,7 @@ func (e *Engine) exploreHarness(fn *ssa.Function, workers int) *HarnessResult {
 					return
 				}
 				run := e.newRun(fn, prefix, sol, violated, &vmu)
+				run.qcache = qcache
 				errMsg := run.execute()
 				rmu.Lock()
 				res.Stats.merge(run.stats)
